@@ -7,6 +7,7 @@ import (
 	"os"
 	"sort"
 	"strings"
+	"time"
 )
 
 // Engine `seq`: real ctlog.Log instances over in-memory, fault-injecting,
@@ -345,6 +346,79 @@ func famDup(r *Rand) *seqScenario {
 	return b.sc
 }
 
+// famBigPool: one pool of more than a tile's worth of entries, then every one of them resubmitted: each must be
+// answered from the cache with the index and timestamp it was given, and the next round must add nothing.
+func famBigPool(r *Rand, n int) *seqScenario {
+	b := newScb("bigpool", 0, r)
+	b.boot(0)
+	b.grow(0, r.Intn(3))
+	ids := b.submitNoRun(0, n)
+	b.roundOK(0)
+	if r.Chance(30) {
+		b.cmd(seqCmd{Op: "crash", Inst: 0})
+		b.cmd(seqCmd{Op: "start", Inst: 0})
+		b.cmd(seqCmd{Op: "run", Inst: 0})
+	}
+	for _, e := range ids {
+		b.cmd(seqCmd{Op: "submit", Inst: 0, Entry: e})
+	}
+	b.cmd(seqCmd{Op: "run", Inst: 0})
+	b.submitN(0, 1, false)
+	b.roundOK(0)
+	return b.sc
+}
+
+// famLegacy: a cache file inherited from v0.8.0 or earlier (rows only in the 128-bit table), resubmissions that hit
+// either table interleaved with new submissions and rounds.
+func famLegacy(r *Rand) *seqScenario {
+	b := newScb("legacy", 0, r)
+	b.boot(0)
+	old := b.submitN(0, 2+r.Intn(4), false)
+	b.roundOK(0)
+	b.cmd(seqCmd{Op: "crash", Inst: 0})
+	v := int64(r.Intn(2))
+	if r.Chance(30) {
+		v = -1
+	}
+	b.cmd(seqCmd{Op: "legacyize", Inst: 0, V: v})
+	b.cmd(seqCmd{Op: "start", Inst: 0})
+	b.cmd(seqCmd{Op: "run", Inst: 0})
+	var fresh []int
+	resub := func() {
+		pool := old
+		if len(fresh) > 0 && r.Chance(50) {
+			pool = fresh
+		}
+		b.cmd(seqCmd{Op: "submit", Inst: 0, Entry: pool[r.Intn(len(pool))]})
+		b.cmd(seqCmd{Op: "run", Inst: 0, Max: 0})
+	}
+	for round := 0; round < 2+r.Intn(2); round++ {
+		var now []int
+		for k := 1 + r.Intn(3); k > 0; k-- {
+			e := b.small()
+			now = append(now, e)
+			b.cmd(seqCmd{Op: "submit", Inst: 0, Entry: e})
+			b.cmd(seqCmd{Op: "run", Inst: 0, Max: 0})
+			if r.Chance(70) {
+				resub()
+			}
+		}
+		b.roundOK(0)
+		fresh = append(fresh, now...)
+		// what was just sequenced, resubmitted right away (possibly after a hit in the legacy table)
+		for _, e := range now {
+			if r.Chance(70) {
+				b.cmd(seqCmd{Op: "submit", Inst: 0, Entry: old[r.Intn(len(old))]})
+				b.cmd(seqCmd{Op: "run", Inst: 0, Max: 0})
+			}
+			b.cmd(seqCmd{Op: "submit", Inst: 0, Entry: e})
+			b.cmd(seqCmd{Op: "run", Inst: 0, Max: 0})
+		}
+	}
+	b.roundOK(0)
+	return b.sc
+}
+
 // famPool: admission control with small pools and priorities.
 func famPool(r *Rand) *seqScenario {
 	pool := 1 + r.Intn(4)
@@ -572,11 +646,11 @@ func genScenarios(o *Opts, r *Rand) []*seqScenario {
 	fam := func(names ...string) bool {
 		want := map[string][]string{
 			"C01": {"basic", "fault", "clock", "crash", "runseq"},
-			"C02": {"basic", "fault", "dup", "crash", "pool"},
+			"C02": {"basic", "fault", "dup", "crash", "pool", "bigpool"},
 			"C03": {"crash", "fault"},
 			"C04": {"basic", "fault", "crash", "issuerrace"},
 			"C06": {"multi", "startup", "runseq"},
-			"C07": {"dup", "pool", "issuerrace"},
+			"C07": {"dup", "pool", "issuerrace", "bigpool", "legacy"},
 			"C08": {"tamper"},
 			"C17": {"pool", "fault", "runseq"},
 		}[o.Prop]
@@ -667,6 +741,21 @@ func genScenarios(o *Opts, r *Rand) []*seqScenario {
 			add(famDup(r.Fork()))
 		}
 	}
+	if fam("bigpool") {
+		for _, n := range []int{257, 516} {
+			add(famBigPool(r.Fork(), n+r.Intn(3)))
+		}
+		if thorough {
+			for _, n := range []int{256, 258, 300, 770, 1030} {
+				add(famBigPool(r.Fork(), n))
+			}
+		}
+	}
+	if fam("legacy") {
+		for i := 0; i < 10*mul; i++ {
+			add(famLegacy(r.Fork()))
+		}
+	}
 	if fam("pool") {
 		for i := 0; i < 40*mul; i++ {
 			add(famPool(r.Fork()))
@@ -722,9 +811,24 @@ func runSeq(args []string) int {
 		scs = genScenarios(o, r)
 	}
 	perSig := map[string]int{}
+	// wall-clock budget: a change to the code under check can make scenarios arbitrarily slow (a sequencer that never
+	// stops keeps every bounded wait busy to its bound); the run then ends early with what it has. With failures in
+	// hand there is no point in finishing the whole list.
+	t0 := time.Now()
+	budget := 1200 * time.Second
+	if o.Tier == "thorough" {
+		budget = 3600 * time.Second
+	}
+	if o.Search {
+		budget = 200 * time.Second // the runner gives a search run a few minutes and kills it afterwards
+	}
 	for i, sc := range scs {
 		if only != "" && sc.Family != only {
 			continue
+		}
+		if el := time.Since(t0); el > budget || (len(fails) >= 8 && el > 240*time.Second) {
+			st.Count("stopped-early:budget")
+			break
 		}
 		before := tr.N
 		fs := runScenario(sc, i, tr, st, o.Out)
